@@ -5,6 +5,7 @@ from vlib import *
 log("building garble from", REPO)
 g = Garble(name="setup")
 hb = build_hooked()
+crashsup_bin()
 log("garble:", g.bin, "hooked:", hb)
 FAT = '''package main
 import ("fmt";"encoding/json";"reflect";"os";"strings";"strconv";"sort";"errors";"runtime";"runtime/debug";"sync";"time";"bytes";"text/template";"unsafe";"sync/atomic";"math";"io")
